@@ -129,11 +129,16 @@ pub enum Shape {
     Convert(Src, bool, u8),
     /// lhs op rhs  (op: 0 +, 1 -, 2 *)
     Arith(Src, u8, Src),
+    /// `x = A op B` (A a based literal, B decimal and possibly fractional; op 0 + 1 - 2 * 3 /) followed by `x [to] target`
+    VarConvert(Src, u8, Src, bool, u8),
 }
 
 #[derive(Clone, Debug, Serialize, Deserialize)]
 pub struct Case {
     pub shape: Shape,
+    /// Arith: bit 0 = no blank before the operator, bit 1 = no blank after it
+    #[serde(default)]
+    pub glue: u8,
 }
 
 pub fn case_line(c: &Case) -> Line {
@@ -149,11 +154,34 @@ pub fn case_line(c: &Case) -> Line {
         }
         Shape::Arith(a, op, b) => {
             l.push(a.tok());
-            l.push(Tok::op(['+', '-', '*'][*op as usize % 3]));
-            l.push(b.tok());
+            l.push(Tok::op(['+', '-', '*'][*op as usize % 3]).sp(if c.glue & 1 != 0 { 0 } else { 1 }));
+            l.push(b.tok().sp(if c.glue & 2 != 0 { 0 } else { 1 }));
+        }
+        Shape::VarConvert(_, _, _, to, t) => {
+            l.push(Tok::word("x", Class::Var));
+            if *to {
+                l.push(Tok::word("to", Class::Conn));
+            }
+            l.push(Tok::word(TARGETS[*t as usize % 5].0, Class::Keyword));
         }
     }
     l
+}
+
+/// the defining line of a VarConvert case
+pub fn var_def_line(c: &Case) -> Option<Line> {
+    match &c.shape {
+        Shape::VarConvert(a, op, b, _, _) => {
+            let mut l = Line::default();
+            l.push(Tok::word("x", Class::Var));
+            l.push(Tok::op('='));
+            l.push(a.tok());
+            l.push(Tok::op(['+', '-', '*', '/'][*op as usize % 4]));
+            l.push(b.tok());
+            Some(l)
+        }
+        _ => None,
+    }
 }
 
 fn base_nt(b: u8) -> NT {
@@ -184,10 +212,22 @@ impl Prop for Based {
     fn check(&self, w: &mut Worker, c: &Case) -> Verdict {
         let cfg = Cfg::default();
         let line = case_line(c).render(",", ".");
-        let rendered = line.clone();
-        let slot = match w.eval1(&cfg, "en", &line) {
-            Ok(s) => s,
-            Err(e) => return Verdict::fail(e, rendered),
+        let (rendered, slot) = match var_def_line(c) {
+            None => {
+                let slot = match w.eval1(&cfg, "en", &line) {
+                    Ok(s) => s,
+                    Err(e) => return Verdict::fail(e, line.clone()),
+                };
+                (line.clone(), slot)
+            }
+            Some(def) => {
+                let text = format!("{}\n{}", def.render(",", "."), line);
+                match w.eval(&cfg, "en", &text) {
+                    Ok(o) if o.slots.len() == 2 => (text.replace('\n', " ; "), o.slots[1].clone()),
+                    Ok(o) => return Verdict::fail(format!("{} slots for two lines", o.slots.len()), text),
+                    Err(p) => return Verdict::fail(format!("panic at {}: {}", p.site, p.message), text),
+                }
+            }
         };
         let mut acc = Acc::new();
         let mut nt = false;
@@ -235,6 +275,36 @@ impl Prop for Based {
                     other => acc.fail(format!("expected Number({:?}) got {}", cands, other.brief())),
                 }
             }
+            Shape::VarConvert(a, op, b, _, t) => {
+                kind = "conversion-of-a-variable";
+                let (_, tb) = TARGETS[*t as usize % 5];
+                let (x, y) = (a.value(), b.value());
+                let v = match op % 4 {
+                    0 => x + y,
+                    1 => x - y,
+                    2 => x * y,
+                    _ => x / y,
+                };
+                let fl = v.floor();
+                let cands: Vec<u64> = if ((v - fl) - 0.5).abs() < 1e-6 { vec![fl as u64, fl as u64 + 1] } else { vec![v.round() as u64] };
+                nt = cands[0] >= 16;
+                big = cands[0] >= 1 << 31;
+                match &slot {
+                    Slot::Ok { v: got, out } => match got {
+                        V::Num(g, ty) => {
+                            if !cands.iter().any(|c| *g == *c as f64) {
+                                acc.fail(format!("x = {} holds {}; expected the integer {:?} got {}", rendered, v, cands, g));
+                            } else if *ty != base_nt(tb) {
+                                acc.fail(format!("expected a base-{} number got {:?}", tb, ty));
+                            } else if tb != 10 {
+                                check_printed(&mut acc, w, &cfg, out, *g as u64, tb);
+                            }
+                        }
+                        other => acc.fail(format!("expected a number got {:?}", other)),
+                    },
+                    other => acc.fail(format!("expected Number({:?}) got {}", cands, other.brief())),
+                }
+            }
             Shape::Arith(a, op, b) => {
                 kind = "arithmetic";
                 nt = a.base != 10 || b.base != 10;
@@ -254,7 +324,7 @@ impl Prop for Based {
                 }
             }
         }
-        acc.finish(rendered).nt(nt).class(kind).class_if(big, "value>=2^31").class_if(matches!(&c.shape, Shape::Convert(s, ..) if s.frac.is_some()), "fractional-source").class_if(matches!(&c.shape, Shape::Convert(_, false, _)), "without-to")
+        acc.finish(rendered).nt(nt).class(kind).class_if(big, "value>=2^31").class_if(matches!(&c.shape, Shape::Convert(s, ..) if s.frac.is_some()), "fractional-source").class_if(matches!(&c.shape, Shape::Convert(_, false, _)), "without-to").class_if(matches!(&c.shape, Shape::Arith(..)) && c.glue % 4 != 0, "operator-glued-to-an-operand")
     }
 }
 
@@ -311,12 +381,27 @@ pub fn src_strategy(allow_frac: bool) -> impl Strategy<Value = Src> {
 
 pub fn case_strategy() -> impl Strategy<Value = Case> {
     prop_oneof![
-        2 => src_strategy(false).prop_map(|s| Case { shape: Shape::Literal(s) }),
-        6 => (src_strategy(true), any::<bool>(), 0u8..5).prop_map(|(s, to, t)| Case { shape: Shape::Convert(s, to, t) }),
-        2 => (src_strategy(false), 0u8..3, src_strategy(false)).prop_map(|(a, op, b)| {
+        2 => src_strategy(false).prop_map(|s| Case { shape: Shape::Literal(s), glue: 0 }),
+        6 => (src_strategy(true), any::<bool>(), 0u8..5).prop_map(|(s, to, t)| Case { shape: Shape::Convert(s, to, t), glue: 0 }),
+        2 => (src_strategy(false), 0u8..3, src_strategy(false), prop_oneof![2 => Just(0u8), 1 => 1u8..4]).prop_map(|(a, op, b, glue)| {
             // keep products exact in f64
             let (a, b) = if op == 2 { (Src { n: a.n % (1 << 26), ..a }, Src { n: b.n % (1 << 26), ..b }) } else { (a, b) };
-            Case { shape: Shape::Arith(a, op, b) }
+            Case { shape: Shape::Arith(a, op, b), glue }
+        }),
+        // a value computed from a based literal, stored in a variable, then converted: rounded like any other N
+        2 => (src_strategy(false), 0u8..4, src_strategy(true), any::<bool>(), 0u8..5).prop_map(|(a, op, b, to, t)| {
+            let mut a = Src { n: a.n % (1 << 24), ..a };
+            if a.base == 10 {
+                a.base = 16;
+            }
+            let mut b = Src { n: b.n % (1 << 24), base: 10, ..b };
+            if op % 4 == 1 && b.n + 1 > a.n {
+                a.n = b.n + 1 + a.n;
+            }
+            if op % 4 == 3 && b.n == 0 {
+                b.n = 3;
+            }
+            Case { shape: Shape::VarConvert(a, op, b, to, t), glue: 0 }
         }),
     ]
 }
@@ -331,11 +416,11 @@ pub fn table() -> Vec<Case> {
         for base in [10u8, 16, 8, 2] {
             for t in 0..5u8 {
                 for to in [true, false] {
-                    out.push(Case { shape: Shape::Convert(Src { n, base, frac: None, prefix_upper: to, digit_case: t % 3 }, to, t) });
+                    out.push(Case { shape: Shape::Convert(Src { n, base, frac: None, prefix_upper: to, digit_case: t % 3 }, to, t), glue: 0 });
                 }
             }
             if base != 10 {
-                out.push(Case { shape: Shape::Literal(Src { n, base, frac: None, prefix_upper: false, digit_case: 0 }) });
+                out.push(Case { shape: Shape::Literal(Src { n, base, frac: None, prefix_upper: false, digit_case: 0 }), glue: 0 });
             }
         }
     }
